@@ -90,8 +90,14 @@ def build(chk):
             ("bare-left", "fn lp(acc: u8, ctx: (), i: %s) -> Either<u8, u8> { Left(%s) }" % (cty, upd)),
             ("match-body", "fn lp(acc: u8, ctx: u8, i: %s) -> Either<u8, u8> { match jet::eq_8(%s, ctx) { true => Left(acc), false => Right(%s), } }" % (cty, conv8[w], upd)),
         ]
+        helper = ("fn helper(limit: u8, total: u8, i: %s) -> Either<u8, u8> { match jet::eq_8(%s, limit) { true => Left(total), false => Right(jet::xor_8(jet::left_rotate_8(1, total), %s)), } }\n" % (cty, conv8[w], conv8[w]))
+        shapes += [
+            ("forward-swapped", helper + "fn lp(total: u8, limit: u8, i: %s) -> Either<u8, u8> { helper(limit, total, i) }" % cty),
+            ("forward-in-order", helper + "fn lp(limit: u8, total: u8, i: %s) -> Either<u8, u8> { helper(limit, total, i) }" % cty),
+            ("forward-renamed", helper + "fn lp(acc: u8, ctx: u8, i: %s) -> Either<u8, u8> { { helper(ctx, acc, i) } }" % cty),
+        ]
         for nm, ftext in shapes:
-            unit = "ctx: ()" in ftext
+            unit = "ctx: ()" in ftext.split("fn lp")[-1]
             for init in (1, rng.randrange(256)):
                 cv = rng.randrange(1 << (1 << w)) if w < 3 else rng.choice([0, 3, 200, 255])
                 text = ("%s\nfn main() { let r: Either<u8, u8> = for_while::<lp>(%d, %s); "
